@@ -150,6 +150,11 @@ func (cl *CollectorWorker) collect() {
 	defer cl.parent.workersWG.Done()
 
 	tickerDuration := cl.parent.Config.GetTracesConfig().GetSendTickerValue()
+	if tickerDuration <= 0 {
+		// Traces.SendTicker is not range-checked by validation; NewTicker panics on a
+		// non-positive interval and takes the process down. Use the documented default.
+		tickerDuration = 100 * time.Millisecond
+	}
 	ticker := cl.parent.Clock.NewTicker(tickerDuration)
 	defer ticker.Stop()
 
